@@ -24,7 +24,10 @@ def jobs_for(tier):
 
     def one_segment_everywhere(grid, label):
         glat, glon = H.GRIDS[grid]
-        lon_lo, lon_hi = max(glon[0], -PI), min(glon[-1] + 0.5, PI)
+        # the whole grid; on a regional grid the longitude extent is capped below pi so that no pair of points counts as
+        # an antimeridian crossing (whose two-part path would leave the grid); crossings are explored on the global grids
+        lon_lo = max(glon[0], -PI)
+        lon_hi = min(glon[-1] + 0.5, PI) if glon[0] <= -PI else min(glon[-1] + 0.5, glon[0] + 3.1, PI)
         for a, (la0, la1) in enumerate(cells_of(glat, 0.3)):
             for b, (lo0, lo1) in enumerate(cells_of(glon, 0.5)):
                 lo0, lo1 = max(lo0, lon_lo), min(lo1, lon_hi)
@@ -57,7 +60,8 @@ def jobs_for(tier):
         glat, glon = H.GRIDS['fine2']
         for a, (la0, la1) in enumerate(cells_of(glat, 0.3)):
             for b, (lo0, lo1) in enumerate(cells_of(glon, 0.5)):
-                add(f'fine2: two segments, middle point in cell ({a},{b})', 'fine2', 3, [(-0.3, 0.45, -0.4, 0.1), (la0, la1, lo0, lo1), (-0.1, 0.45, -0.1, 0.6)])
+                for band, (f0, f1) in enumerate([(-0.3, 0.0), (0.0, 0.2), (0.2, 0.45)]):
+                    add(f'fine2: two segments, first point in latitude band {band}, middle point in cell ({a},{b})', 'fine2', 3, [(f0, f1, -0.4, 0.1), (la0, la1, lo0, lo1), (-0.1, 0.45, -0.1, 0.6)])
         add('altitude+time axes, both points free', 'fine2', 2, [(-0.2, 0.1, -0.3, -0.1), (-0.2, 0.1, -0.1, 0.3)], alt=True, time=True)
         for k, (lo, hi) in enumerate([(-0.3, 0.0), (0.0, 0.35)]):
             add(f'two segments, wide boxes, third point latitude band {k}', 'fine2', 3, [(-0.1, 0.1, -0.1, 0.1), (-0.1, 0.1, -0.1, 0.45), (lo, hi, -0.1, 0.1)])
